@@ -237,8 +237,50 @@ def load_check(check_id):
     return importlib.import_module(CHECKS[check_id])
 
 
+def other_hash_seed(spec):
+    """The string-hash seed a shard / case asks for, when it is not the one this interpreter runs with."""
+    env = (spec or {}).get("__env__") if isinstance(spec, dict) else None
+    seed = (env or {}).get("PYTHONHASHSEED")
+    if seed is not None and str(seed) != os.environ.get("PYTHONHASHSEED"):
+        return str(seed)
+    return None
+
+
+def _work_in_subprocess(arg, seed):
+    """String hashing cannot be re-seeded in a running interpreter: such a shard runs in a fresh one."""
+    import pickle
+    check_id, index, shard = arg
+    d = tempfile.mkdtemp(prefix="shard-seed-", dir=os.environ.get("MC_SCRATCH"))
+    fin, fout = os.path.join(d, "in.pickle"), os.path.join(d, "out.pickle")
+    with open(fin, "wb") as f:
+        pickle.dump(arg, f)
+    env = dict(os.environ, PYTHONHASHSEED=seed)
+    p = subprocess.run([sys.executable, "-c", "import sys; from mc import harness; harness._subprocess_main(sys.argv[1], sys.argv[2])", fin, fout],
+                       env=env, cwd=VERIF, capture_output=True, text=True)
+    try:
+        if p.returncode != 0 or not os.path.exists(fout):
+            return {"index": index, "error": f"shard subprocess (PYTHONHASHSEED={seed}) failed:\n{p.stderr[-3000:]}", "shard": shard}
+        with open(fout, "rb") as f:
+            return pickle.load(f)
+    finally:
+        import shutil
+        shutil.rmtree(d, ignore_errors=True)
+
+
+def _subprocess_main(fin, fout):
+    import pickle
+    with open(fin, "rb") as f:
+        arg = pickle.load(f)
+    out = _work(arg)
+    with open(fout, "wb") as f:
+        pickle.dump(out, f)
+
+
 def _work(arg):
     check_id, index, shard = arg
+    seed = other_hash_seed(shard)
+    if seed is not None:
+        return _work_in_subprocess(arg, seed)
     t0 = time.time()
     try:
         mod = load_check(check_id)
@@ -390,7 +432,11 @@ def run_check(check_id, tier, seed):
             continue
         # Re-execute the smallest case before reporting it: the same case must fail the same way,
         # otherwise some nondeterminism was not captured and nothing about it can be believed.
-        if os.environ.get("VERIF_NO_RECHECK") != "1":
+        if os.environ.get("VERIF_NO_RECHECK") != "1" and other_hash_seed(vs[0]["case"]) is not None:
+            # explored under another string-hash seed: re-execute the case in a fresh interpreter under that seed
+            if not case_reproduces(check_id, vs[0], sig):
+                raise InfraError(f"violation did not reproduce on re-execution under its hash seed (uncaptured nondeterminism?): {sig}")
+        elif os.environ.get("VERIF_NO_RECHECK") != "1":
             probe = Rec(check_id, mod)
             try:
                 with shard_env(vs[0]["case"]):
@@ -465,6 +511,16 @@ def run_check(check_id, tier, seed):
     if evals == 0 or states == 0 or transitions == 0:
         raise InfraError("vacuous run: nothing was explored")
     return 1 if nviol else 0
+
+
+def case_reproduces(check_id, violation, sig):
+    d = tempfile.mkdtemp(prefix="case-replay-", dir=os.environ.get("MC_SCRATCH"))
+    path = os.path.join(d, "case.json")
+    with open(path, "w") as f:
+        json.dump({"property": check_id, "case": violation["case"]}, f)
+    env = {k: v for k, v in os.environ.items() if k != "_MC_INNER"}
+    p = subprocess.run([sys.executable, os.path.join(VERIF, "run_check.py"), "--replay", path], capture_output=True, text=True, env=env)
+    return f"signature: {sig}" in p.stdout
 
 
 def shard_reproduces(check_id, violation, sig):
